@@ -80,7 +80,6 @@ impl Bits {
         let mut stream = Ps2Decoder::new();
         let mut aligned = true;
         let mut kb = KbAny::new(2, DynLayout::Direct(2), hc(true));
-        let mut kb_mirror = ScancodeSet2::new();
         let mut violation: Option<Violation> = None;
         let mut any_fault = false;
         let mut last_t = 0u64;
@@ -224,19 +223,21 @@ impl Bits {
                 env.cov.probe("frame_right_after_rejected_frame");
             }
             prev_rejected = matches!(want, FRes::Err(_));
-            // the same word through Keyboard::add_word: same framing verdict, and only an
-            // accepted byte reaches the scancode stage
+            // the same word through Keyboard::add_word: the framing verdict must be the same -
+            // a rejected frame is reported with its framing error and nothing else, an accepted
+            // frame never with a framing error (what the scancode stage then makes of the byte
+            // is C01/C18's business, not C05's)
             let rk = Res::of(&kb.add_word(w));
             env.cov.api_calls += 1;
             env.cov.hit("words_via_keyboard_add_word", w as usize);
-            let wantk = match r {
-                FRes::Err(e) => Res::Err(e),
-                FRes::Byte(b) => Res::of(&kb_mirror.advance_state(b)),
-                FRes::Pending => Res::Pending,
-            };
             env.cov.evaluations += 1;
-            if rk != wantk {
-                fail!('ops, i, "keyboard-add_word-verdict", "Keyboard::add_word({:03X}) returned {}, expected {}", w, rk.show(), wantk.show());
+            let framing_err = |r: &Res| matches!(r, Res::Err(e) if *e != pc_keyboard::Error::UnknownKeyCode);
+            let ok = match r {
+                FRes::Err(e) => rk == Res::Err(e),
+                _ => !framing_err(&rk),
+            };
+            if !ok {
+                fail!('ops, i, "keyboard-add_word-verdict", "Keyboard::add_word({:03X}) returned {}, the frame decoder's verdict on the same word is {}", w, rk.show(), r.show());
             }
             // ground truth from the fault annotation, not from the model: for the frame judged
             // on its own, and for the same frame as the long-lived receiver saw it in the stream
